@@ -1,5 +1,6 @@
 import Driver.Common
 import Logrange.Model.Provider
+import Logrange.Model.RingPtr
 import Logrange.Generated.C15
 /-! Model driver for C15 (cursor provider cache + CLElement ring). Requests:
 
@@ -16,6 +17,10 @@ import Logrange.Generated.C15
 * `consts`                                     — the regenerated constants of NewProvider
 * `ring.append <cle> <chain>`, `ring.tearoff <r> <e|nil>`, `ring.prev <r> <e>`, `ring.next <r> <e>`,
   `ring.nextfield <r> <e>`, `ring.len <r>`     — rings as comma lists, `-` = nil
+* `pring <N> <op,op,…>`                        — POINTER level (`Model/RingPtr.lean`): `N` cells made by `NewCLElement`, then
+      `A<x>:<y>` = `cell x .Append(cell y)`, `T<x>:<y>` = `cell x .TearOff(cell y)` (`y` = `-` is nil), any cells (misuse included:
+      the model follows the statements of clist.go); answer: after every op `r=<returned cell|->` and every cell's
+      `<next>.<prev>` fields, ops separated by `;`
 -/
 open Logrange Logrange.Provider Driver
 
@@ -36,6 +41,25 @@ def showOutcome : Outcome → String
   | .nilDeref => "nilderef"
 
 def n (s : String) : Nat := s.toNat?.getD 0
+
+def showPtr : RingPtr.Ptr → String
+  | none => "-"
+  | some e => toString e
+
+/-- the pointer-level run of `pring` -/
+def pringRun (cells : Nat) (ops : List String) : String :=
+  let h0 := (List.range cells).foldl (fun h e => RingPtr.newElem h e) RingPtr.Heap.init
+  let dumpH := fun (h : RingPtr.Heap) => " ".intercalate ((List.range cells).map (fun e => s!"{h.next e}.{h.prev e}"))
+  let r := ops.foldl (fun (acc : RingPtr.Heap × List String) (op : String) =>
+    let body := (op.drop 1).toString
+    match body.splitOn ":" with
+    | [x, y] =>
+      let px : RingPtr.Ptr := some (n x)
+      let py : RingPtr.Ptr := if y == "-" then none else some (n y)
+      let res := if op.startsWith "A" then RingPtr.append acc.1 px py else RingPtr.tearOff acc.1 px py
+      (res.1, s!"r={showPtr res.2} {dumpH res.1}" :: acc.2)
+    | _ => (acc.1, "bad-op" :: acc.2)) (h0, [])
+  ";".intercalate r.2.reverse
 
 def step (s : St) (toks : List String) : St × String :=
   let chk := Logrange.Generated.C15.insertChecksExisting
@@ -76,6 +100,7 @@ def step (s : St) (toks : List String) : St × String :=
   | ["ring.next", r, e] => (s, toString (Ring.next (parseRing r) (n e)))
   | ["ring.nextfield", r, e] => (s, toString (Ring.nextField (parseRing r) (n e)))
   | ["ring.len", r] => (s, toString (Ring.len (parseRing r)))
+  | ["pring", cells, ops] => (s, pringRun (n cells) (ops.splitOn ","))
   | _ => (s, "bad-op")
 
 def main (args : List String) : IO Unit := Driver.run step (init 3 60 300) args
